@@ -170,6 +170,8 @@ class Ctx:
             "wall_s": round(time.time() - self.t0, 2),
             "violations": n_viol,
         }
+        if os.environ.get("VERIF_EVIDENCE_TO"):       # debugging aid: evidence of a run on a scratch copy, outside /verif/evidence
+            json.dump(ev, open(os.environ["VERIF_EVIDENCE_TO"], "w"), indent=1, default=str)
         if os.environ.get("VERIF_NO_EVIDENCE"):
             return
         os.makedirs(os.path.join(VERIF, "evidence"), exist_ok=True)
